@@ -125,6 +125,9 @@ type Spec struct {
 	// specification does not constrain.
 	Ignore    []string
 	MinPaths  int
+	// Optional: the target is a small helper whose effect is also checked where it is used; if it has
+	// been inlined away (the function no longer exists) the specification is skipped, not failed.
+	Optional bool
 	MaxVisits int
 	SymLoops  bool
 }
@@ -152,6 +155,9 @@ func Check(rule *report.Rule, cfg *Config, sp *Spec) *Result {
 	name := sp.Pkg + "." + sp.Func
 	res := &Result{ClassCount: map[string]int{}}
 	if fn == nil || len(fn.Blocks) == 0 {
+		if sp.Optional {
+			return &Result{ClassCount: map[string]int{}}
+		}
 		rule.Fail("-", name, "target function cannot be resolved (anchor lost)", nil)
 		return res
 	}
